@@ -28,6 +28,10 @@ func (t *templated) Apply(mod *sysl.Module, appNames ...string) map[string]*sysl
 	}
 	sort.Strings(aNames)
 	for _, app := range aNames {
+		if mod.GetApps()[app] == nil {
+			logrus.Warnf("app %q does not exist in the model, skipped", app)
+			continue
+		}
 		s := eval.Scope{}
 		s.AddApp(app, mod.Apps[app])
 		eval.AppendItemToValueList(apps.GetList(), s[app])
